@@ -13,12 +13,27 @@ LEVEL_TEXT = ("Lean theorems, unbounded in N and P (incl. P > N and N = 0): spli
               "never raises, while check-then-mkdir on every rank has a raising interleaving for P = 2. Which protocol the fitting stages use is "
               "regenerated from the source on every run and decided in Lean. Tie: exhaustive correspondence of the real split_idx/get_functions up to "
               "(N,P) = (300,40); the four real fitting stages under the multi-process stand-in for rank counts incl. P > N and 13 ranks (rank numbers >= 10 "
-              "owning functions) with a row-alignment oracle; the Likelihood constructor under a forced start-up interleaving.")
-TECHNIQUE = "Lean 4 proof (arithmetic + list tiling + interleaving semantics of directory protocols) + regenerated protocols + exhaustive correspondence + multi-rank stage runs"
+              "owning functions) with a row-alignment oracle; the Likelihood constructor under a forced start-up interleaving; the directory "
+              "operations (isdir/mkdir/makedirs/Barrier) every rank really performs in Likelihood.__init__ and get_functions, traced from a fresh "
+              "directory, against the regenerated protocol table, with a race oracle on the traced operations.")
+TECHNIQUE = ("Lean 4 proof (arithmetic + list tiling + interleaving semantics of directory protocols) + regenerated protocols + exhaustive correspondence "
+             "+ traced directory operations vs the protocol table + multi-rank stage runs")
 EXPLANATION = ("Lean theorems (unbounded N,P) over the hand model of split_idx/get_functions and the directory "
                "protocol; model tied to the code by exhaustive correspondence up to the bound and by real multi-rank stage runs")
 TRUSTED = ["hand model ESRVerif/Model/Partition.lean of split_idx and get_functions (tied by exhaustive correspondence up to the bound)",
-           "int(np.ceil(N/float(P))) equals ceiling division for N < 2^53", "sort -V / cat / find of the shell"]
+           "int(np.ceil(N/float(P))) equals ceiling division for N < 2^53", "sort -V / cat / find of the shell",
+           "DirProto translator normalisations (harness/extractors/dirproto.py + _norm_c14.py): N1 tests as conjunctions/disjunctions of literals "
+           "(double negation, De Morgan, not a == b), facts in body / else / after a branch that always jumps; N2 rank-0 literals rank == 0, 0 == rank, "
+           "not rank, rank < 1, rank <= 0 and negations (MPI ranks are non-negative ints); N3 substitution of single-assignment locals bound to pure "
+           "expressions, tuple and chained assignment, remembered existence tests dropped at the rank's next creation; N4 literal indexing/len; "
+           "N5 loops over literal tuples/lists (enumerate, zip, range) unrolled; N6 directory named by the attribute holding it; N7 one level of "
+           "helper inlining (module function, same-class method, closure); N8 barrier-after with only inert statements in between",
+           "each traced os.* / Barrier call is the outermost call made by ESR code in the phase (harness/workers/dir_trace.py wraps, never changes, the calls)"]
+# Generated tables this property may fall back on when the translator cannot read today's source (ROBUSTIFY.md 2.)
+FALLBACK = {"DirProto": "dynamic tie corr:dir-protocol: the os.path.isdir/exists, os.mkdir, os.makedirs and Barrier calls that every rank really makes in "
+                        "Likelihood.__init__ and test_all.get_functions (workers/dir_trace.py, fresh directory, 1..5 ranks) equal, rank by rank and in order, "
+                        "the operations the committed table lists (read back through the model executable), incl. rank-0-only and barrier-after; the traced run "
+                        "is made under the forced all-test-before-any-creates interleaving and must complete on every rank (oracle), plus the forced constructor start-up"}
 ASSUMPTIONS = ["atomic mkdir, no partial writes", "ranks are OS processes under the stand-in hub, not a real MPI progress engine"]
 MODELLED = ["utils.py:split_idx", "test_all.py:get_functions", "likelihood.py:Likelihood.__init__"]
 
@@ -119,6 +134,157 @@ def _constructor_start(ctx, Ps):
     return n
 
 
+PHASE_OF = {"likelihood.Likelihood.__init__": "ctor", "test_all.get_functions": "getfun"}
+
+
+def _trace_run(ctx, P, mode="free", force=None, tag=""):
+    """one run of workers/dir_trace.py on P ranks from a fresh data directory -> (mpirun result, [per-rank trace dict])"""
+    import json, shutil
+    base = os.path.join(ctx.tmp, "dt_%d_%s%s" % (P, mode, tag))
+    shutil.rmtree(base, ignore_errors=True)
+    dd, fn, od = os.path.join(base, "data"), os.path.join(base, "fn"), os.path.join(base, "out")
+    os.makedirs(dd); os.makedirs(os.path.join(fn, "compl_1")); os.makedirs(od)
+    with open(os.path.join(fn, "compl_1", "unique_equations_1.txt"), "w") as fh:
+        fh.writelines("f%d\n" % k for k in range(5))
+    argv = [os.path.join(common.HARNESS, "workers", "dir_trace.py"), dd, fn, od, mode] + ([force] if force else [])
+    r = mpirun.run(P, argv, timeout=60, env_extra=ctx.env(), cwd=ctx.stage, python=common.PY)
+    traces = []
+    for k in range(P):
+        f = os.path.join(od, "trace_%d.json" % k)
+        traces.append(json.load(open(f)) if os.path.exists(f) else None)
+    errs = ["rank %d: %s" % (k, t["error"]) for k, t in enumerate(traces) if t and t["error"]]
+    own = [e for e in errs if "_HubError" not in e]          # the rank that failed, not the ranks left waiting for it
+    tail = "; ".join((own or errs)[:2])[:400]
+    r["tail"] = tail
+    shutil.rmtree(r.get("tmp", ""), ignore_errors=True)
+    return r, traces
+
+
+def _creations(events):
+    """creation calls of one rank in one phase, each classified by what the rank itself did before it:
+    ('checkMkdir', path)       os.mkdir / os.makedirs(exist_ok=False) after the rank's own isdir/exists test of the path said False
+    ('mkdirUnchecked', path)   the same without such a test
+    ('makedirsExistOk', path)  os.makedirs(path, exist_ok=True)
+    ('barrier', '')            communicator barrier"""
+    ops, checked = [], {}
+    for _, op, path, eo, res in events:
+        if op in ("isdir", "exists"):
+            checked[path] = res
+        elif op == "barrier":
+            ops.append(("barrier", ""))
+        elif op == "makedirs" and eo:
+            ops.append(("makedirsExistOk", path)); checked = {}
+        elif op in ("mkdir", "makedirs"):
+            ops.append(("checkMkdir" if checked.get(path) == "False" else "mkdirUnchecked", path)); checked = {}
+    return ops
+
+
+def _matches_table(steps, ev):
+    """do the directory events of one rank (('check'|'mkdir'|'makedirsExistOk', dir number, result), in order) follow the
+    table's steps for that rank?  Existence tests have no effect and may occur anywhere; a step's creation is skipped
+    when the rank's own test of its directory (since the rank's previous creation) said it is there - that is what
+    `if not isdir(d):` means for either kind; a checkMkdir creation must follow such a test that said False."""
+    i = 0
+    for kind, d in steps:
+        j, seen = i, {}
+        while j < len(ev) and ev[j][0] == "check":
+            seen[ev[j][1]] = ev[j][2]; j += 1
+        if j < len(ev) and ev[j][1] == d and ev[j][0] == ("mkdir" if kind == "checkMkdir" else "makedirsExistOk") \
+                and (kind != "checkMkdir" or seen.get(d) == "False"):
+            i = j + 1
+        elif seen.get(d) == "True":
+            i = max(t for t in range(i, j) if ev[t][1] == d) + 1
+        else:
+            return False
+    return all(e[0] == "check" for e in ev[i:])
+
+
+def _dir_protocol(ctx, Ps):
+    """Tie of Generated/DirProto.lean to the running code, and the race oracle on the real operations.
+
+    correspondence: the directory operations every rank really performs in Likelihood.__init__ / get_functions (traced
+    os.path.isdir / os.mkdir / os.makedirs / Barrier calls, fresh directory) are the ones the table of the model
+    executable lists for that rank, in that order, and a barrier follows where the table says so.
+    oracle (independent of table and model): a directory that some rank creates with a raising primitive is created
+    by that rank alone and every rank passes a barrier after it; the whole traced run is made under the start-up
+    interleaving "all ranks test a directory before any creates it" and must complete on every rank."""
+    protos = []
+    for i in range(64):
+        lines = common.model(["dirproto %d %d" % (i, r) for r in range(max(Ps))])
+        if lines[0] == "none":
+            break
+        protos.append([ln.split() for ln in lines])
+    bad = 0
+    unexercised = [p[0][0] for p in protos if p[0][0] not in PHASE_OF]
+    for nm in unexercised:
+        bad += 1
+        ctx.disagree("corr:dir-protocol", "protocol %s of the table is not exercised by the traced run" % nm)
+    n = 0
+    for P in Ps:
+        # traced under the adversarial start-up interleaving (every rank passes its existence test of a directory before
+        # any rank creates it, wherever the code allows that): what each rank does is then independent of timing
+        r, traces = _trace_run(ctx, P, "forced", "*")
+        n += 1
+        ctx.case(("dirtrace", P), nontrivial=P >= 2, n=P)
+        rp = dict(kind="dirtrace", P=P, mode="forced", force="*")
+        if not r["ok"] or any(t is None or t["error"] or t["missing"] for t in traces):
+            miss = sorted({os.path.basename(os.path.normpath(m)) for t in traces if t for m in t["missing"]})
+            ctx.fail("dir-setup-incomplete:P=%d" % P, "Likelihood(data_dir=<fresh dir>) + get_functions on %d ranks, under the start-up interleaving in which every rank "
+                     "passes its existence test of a directory before any rank creates it, do not complete on every rank with all "
+                     "output directories present when get_functions returns: exit codes %s %s %s%s" % (
+                         P, r["exit_codes"], r["error"] or "", r["tail"], (" missing on some rank at return: %s" % miss) if miss else ""), rp)
+            continue
+        for phase in ("ctor", "getfun"):
+            per = [_creations([e for e in t["trace"] if e[0] == phase]) for t in traces]
+            created = {d for ops in per for k, d in ops if k != "barrier"}
+            # events on the directories somebody creates in this phase, numbered by first appearance (rank 0 first)
+            num, evs = {}, []
+            for t in traces:
+                ev = []
+                for _, op, path, eo, res in [e for e in t["trace"] if e[0] == phase]:
+                    if path in created and op != "barrier":
+                        num.setdefault(path, len(num))
+                        ev.append(("check", str(num[path]), res) if op in ("isdir", "exists") else
+                                  ("makedirsExistOk" if (op == "makedirs" and eo) else "mkdir", str(num[path]), res))
+                evs.append(ev)
+            # -- correspondence with the table (through the model executable) --
+            for pr in [p for p in protos if PHASE_OF.get(p[0][0]) == phase]:
+                for rk in range(P):
+                    name, r0, barrier = pr[rk][0], pr[rk][1] == "1", pr[rk][2] == "1"
+                    want = [tuple(x.split(":")) for x in pr[rk][3:]]
+                    got = ["%s:%s%s" % (k, d, "=" + res if k == "check" else "") for k, d, res in evs[rk]]
+                    okb = True
+                    if barrier:
+                        last = max([i for i, (k, d) in enumerate(per[rk]) if k != "barrier"], default=-1)
+                        okb = any(k == "barrier" for k, d in per[rk][last + 1:])
+                    if not _matches_table(want, evs[rk]) or not okb:
+                        bad += 1
+                        ctx.disagree("corr:dir-protocol", "%s, P=%d, rank %d: code does %s%s, table says %s%s" % (
+                            name, P, rk, got, "" if okb else " (no barrier afterwards)", [":".join(w) for w in want], " then barrier" if barrier else ""))
+            if not [p for p in protos if PHASE_OF.get(p[0][0]) == phase] and created:
+                bad += 1
+                ctx.disagree("corr:dir-protocol", "phase %s creates directories but the table has no protocol for it" % phase)
+            # -- oracle on the real operations (independent of table and model) --
+            # Several ranks creating the same directory with a raising primitive have just done so under the adversarial
+            # interleaving and all completed (else the run failed above).  What that interleaving cannot show is a single
+            # creating rank that the others do not wait for: they would use the directory before it exists.
+            if P >= 2:
+                for d in sorted(created, key=lambda x: num[x]):
+                    creators = [rk for rk in range(P) if any(dd == d and k != "barrier" for k, dd in per[rk])]
+                    if len(creators) != 1:
+                        continue
+                    c = creators[0]
+                    last = max(i for i, (k, dd) in enumerate(per[c]) if dd == d)
+                    if not (any(k == "barrier" for k, dd in per[c][last + 1:]) and all(any(k == "barrier" for k, dd in per[rk]) for rk in range(P))):
+                        ctx.disagree("oracle:dir-race", "directory %s (phase %s, P=%d) is created by rank %d alone and the ranks do not meet at a barrier "
+                                     "after it before %s returns: another rank can use it before it exists" % (d, phase, P, c, phase))
+        if P == max(Ps):
+            ctx.sample(dict(dir_protocol_trace=dict(P=P, rank0=[list(x) for x in _creations(traces[0]["trace"])],
+                                                    rank1=[list(x) for x in _creations(traces[1]["trace"])] if P > 1 else None)))
+    ctx.extra["dir_protocol"] = dict(table=[" ".join(p[0]) for p in protos], traced_rank_counts=list(Ps), mismatches=bad)
+    return n, bad
+
+
 def _pipeline_rows(ctx, Ps, comp):
     """the four fitting stages under P ranks: one row per function, row i refers to function i"""
     import numpy as np
@@ -203,14 +369,16 @@ def run(ctx):
     n1, b1 = _corr_split(ctx, 300 if deep else 150, 40 if deep else 24)
     n2, b2 = _corr_getfun(ctx, 120 if deep else 48, 40 if deep else 20)
     n3 = _constructor_start(ctx, [2, 3, 5] if deep else [2, 4])
+    n5, b5 = _dir_protocol(ctx, [1, 2, 3, 5] if deep else [3])
     # n=3: 14 unique / 24 functions (P > N cases); n=4: 24 unique / 64 functions, where with 11+ ranks several ranks
     # numbered >= 10 own functions, so the ORDER in which the per-rank files are concatenated is observable
     n4 = _pipeline_rows(ctx, [1, 2, 3, 5, 16, 29] if deep else [1, 3, 17], 3)
     n4 += _pipeline_rows(ctx, [12, 13, 23] if deep else [13], 4)
-    ctx.extra["runs"] = dict(constructor_startups=n3, pipelines=n4)
-    ctx.extra["corr_obligations"] = 2
-    ctx.extra["corr_discharged"] = int(b1 == 0) + int(b2 == 0)
-    ctx.extra["correspondence"] = dict(split_idx_ops=n1, split_idx_mismatch=b1, get_functions_ops=n2, get_functions_mismatch=b2)
+    ctx.extra["runs"] = dict(constructor_startups=n3, pipelines=n4, dir_traces=n5)
+    ctx.extra["corr_obligations"] = 3
+    ctx.extra["corr_discharged"] = int(b1 == 0) + int(b2 == 0) + int(b5 == 0)
+    ctx.extra["correspondence"] = dict(split_idx_ops=n1, split_idx_mismatch=b1, get_functions_ops=n2, get_functions_mismatch=b2,
+                                       dir_protocol_runs=n5, dir_protocol_mismatch=b5)
     ctx.extra["exhaustive"] = True
 
 
@@ -238,6 +406,11 @@ def replay(ctx, data):
         for f in c2.failures:
             print(f["what"])
         return not c2.failures
+    if rp["kind"] == "dirtrace":
+        r, traces = _trace_run(ctx, rp["P"], rp["mode"], rp["force"], tag="_replay")
+        bad = (not r["ok"]) or any(t is None or t["error"] or t["missing"] for t in traces)
+        print("set-up on %d ranks (%s): exit codes %s %s %s" % (rp["P"], rp["mode"], r["exit_codes"], r["error"] or "", r["tail"]))
+        return not bad
     if rp["kind"] == "get_functions":
         c2 = common.Ctx("C14", "quick", 0); c2.tmp = ctx.tmp; c2.stage = ctx.stage
         _corr_getfun(c2, rp["N"], rp["P"])
